@@ -382,6 +382,22 @@ func genAuth() (string, error) {
 		csStmts = append(csStmts, g.StmtText(st))
 	}
 	emitList("checkSignature", "top-level statements of CheckSignature (normalised)", csStmts)
+	// the guard "a multisig transaction must name at least one signer" and where it sits: after the key
+	// is decoded, before anything is verified
+	guard, guardAt, decodeAt, verifyAt := "", -1, -1, -1
+	for i, t := range csStmts {
+		switch {
+		case strings.HasPrefix(t, "publicKey, e := crypto.NewPublicKeyFromBytes("):
+			decodeAt = i
+		case strings.HasPrefix(t, "if ") && strings.Contains(t, "EnabledSignerCount() == 0") && guardAt < 0:
+			guard, guardAt = t, i
+		case strings.HasPrefix(t, "if ") && strings.Contains(t, ".VerifyBytes(") && verifyAt < 0:
+			verifyAt = i
+		}
+	}
+	emitStr("multisigSignerGuard", "CheckSignature: the statement that refuses a multisig key with no enabled signer (empty when absent)", guard)
+	fmt.Fprintf(&b, "/-- the guard is present, after the key is decoded and before any verification -/\ndef multisigSignerGuardInPlace : Bool := %v\n\n",
+		guardAt >= 0 && decodeAt >= 0 && verifyAt >= 0 && decodeAt < guardAt && guardAt < verifyAt)
 
 	// ---- ApplyTransaction: fee payer --------------------------------------------------------------
 	at := txF.FindFunc("StateMachine", "ApplyTransaction")
